@@ -326,7 +326,8 @@ pub fn run_schedule<K: HKey>(
             sched.done(t);
         }));
     }
-    let timeout = Duration::from_millis(1500);
+    // generous: only a real block-in-lock ever waits this long (a step is a few syscalls on tmpfs)
+    let timeout = Duration::from_millis(3000);
     sched.wait_parked(Duration::from_secs(5));
     let mut events = vec![json!({"ev": "init", "orph": orph_order, "obs": snapshot(&cas, &u, &root, &names)})];
     let mut choices: Vec<(Vec<usize>, usize)> = vec![];
@@ -357,7 +358,7 @@ pub fn run_schedule<K: HKey>(
         }
         if enabled.is_empty() {
             // every unfinished worker is parked before a lock that is held, or stuck inside one
-            std::thread::sleep(Duration::from_millis(if stuck.is_empty() { 0 } else { 1000 }));
+            std::thread::sleep(Duration::from_millis(if stuck.is_empty() { 0 } else { 3000 }));
             let status2 = sched.status();
             if status2 == status {
                 blocked = true;
